@@ -55,7 +55,8 @@ SPEC = {
         "cross-node: the SOCKS5 tunnel-open broadcast (BroadcastTunnelOpen -> every node's handleTunnelOpenBroadcast) is driven through a "
         "BridgeManager double over an in-memory hub (the broker itself is not the repo's); handleDNSQueryCrossNode (connection-state "
         "store + TCP cross-node pool) is still nil in the harness: DNS target on another node = refused",
-        "handleDefaultCommand (executor nil) is not driven: the server always installs the executor (setupConnectionCodeCommands)",
+        "entry point ProcessCommand and read faults on commands other than MappingGet/Delete/TrafficReport/SOCKS5 are judged by the "
+        "predicate only (x-cases), not compared with the model; see checks/c11_coverage.md for the clause/dimension/mechanism map",
         "SendNotifyToClient / NotifyClientAck handlers are registered by the harness although no production code registers them yet",
     ],
 }
